@@ -58,7 +58,10 @@ impl MemcStore {
         let stripe = (hasher.finish() as usize) % KEY_LOCK_STRIPES;
         #[cfg(memcrs_verif)]
         crate::verif::yield_point("memc.lock_key", Some(key.as_ref()), &|| {
-            self.key_locks[stripe].try_lock().is_err()
+            matches!(
+                self.key_locks[stripe].try_lock(),
+                Err(std::sync::TryLockError::WouldBlock)
+            )
         });
         // the lock guards no data: a poisoned one is as good as new
         self.key_locks[stripe]
@@ -216,7 +219,9 @@ impl MemcStore {
         // a flush concerns every key: all stripes, always in the same order
         #[cfg(memcrs_verif)]
         crate::verif::yield_point("memc.lock_all", None, &|| {
-            self.key_locks.iter().any(|lock| lock.try_lock().is_err())
+            self.key_locks
+                .iter()
+                .any(|lock| matches!(lock.try_lock(), Err(std::sync::TryLockError::WouldBlock)))
         });
         let _key_locks: Vec<MutexGuard<'_, ()>> = self
             .key_locks
